@@ -49,7 +49,7 @@ ParamsOf(e) ==
       [] e = "CategoricalMMD" -> Common \o MMD
       [] e = "CategoricalWasserstein" -> Common \o WAS
       [] e = "Douglas" -> Common \o Batch \o Gem \o << P("n_cuts", <<"1", "2", "3">>), P("feature_mask", <<"none", "first_only", "all">>),
-                                                       P("temperature", <<"0.1", "1", "0.01">>) >>
+                                                       P("temperature", <<"0.1", "1", "0.01", "0.001">>) >>
       [] e = "Kauri" -> << P("max_clusters", <<"1", "2", "3", "4">>), P("max_depth", <<"none", "1", "2">>),
                            P("min_samples_split", <<"2", "3", "4">>), P("min_samples_leaf", <<"1", "2">>),
                            P("max_features", <<"none", "1", "d", "d+2">>), P("max_leaves", <<"none", "2", "3">>),
